@@ -182,5 +182,195 @@ pub struct SVCB { pub svc_priority: u16, pub target_name: Name, pub svc_params: 
 //%end
 #[verifier::external_body]
 pub fn vp_last_key(v: &Vec<(SvcParamKey, SvcParamValue)>) -> (r: Option<&SvcParamKey>) { unimplemented!() }
+// ---- the SVCB parameter value decoders themselves (svcb.rs).  Each loop reads whole items until the value's own
+//      decoder is exhausted; termination needs every successful item read to consume at least one octet ----
+pub struct MandatoryV(pub Vec<SvcParamKey>);
+//%fn crates/proto/src/rr/rdata/svcb.rs :: impl<'r> BinDecodable<'r> for Mandatory :: read
+//%rename mandatory_read<'r>
+//%sub1 "Result<Self, DecodeError>" => "Result<MandatoryV, DecodeError>" # R-sel: trait-impl method pulled out as a free fn
+//%sub1 "Ok(Self(keys))" => "Ok(MandatoryV(keys))" # R-sel
+//%sub1 "let mut keys = Vec::with_capacity(1);" => "let mut keys: Vec<SvcParamKey> = Vec::with_capacity(1);" # R-ann: type ascription
+//%attr #[verifier::loop_isolation(false)]
+//%contract
+    requires old(decoder).wf()
+    ensures final(decoder).wf(), final(decoder).buf() == old(decoder).buf(), final(decoder).idx() >= old(decoder).idx()
+//%after "while decoder.peek().is_some()"
+        invariant decoder.wf(), decoder.buf() == old(decoder).buf(), decoder.idx() >= old(decoder).idx(),
+        decreases decoder.buf().len() - decoder.idx()
+//%end
+pub struct VpStr { pub vp: u64 }
+// String::from_utf8(bytes.to_vec()) followed by `?` (From<FromUtf8Error> for DecodeError): returns the string or an error
+#[verifier::external_body] pub fn vp_string_from_utf8(b: &[u8]) -> (r: Result<VpStr, DecodeError>) { unimplemented!() }
+pub struct AlpnV(pub Vec<VpStr>);
+//%fn crates/proto/src/rr/rdata/svcb.rs :: impl<'r> BinDecodable<'r> for Alpn :: read
+//%rename alpn_read<'r>
+//%sub1 "Result<Self, DecodeError>" => "Result<AlpnV, DecodeError>" # R-sel
+//%sub1 "Ok(Self(alpns))" => "Ok(AlpnV(alpns))" # R-sel
+//%sub1 "let mut alpns = Vec::with_capacity(1);" => "let mut alpns: Vec<VpStr> = Vec::with_capacity(1);" # R-ann: type ascription
+//%sub1 "String::from_utf8(alpn.to_vec())?" => "vp_string_from_utf8(alpn)?" # R-shim: String::from_utf8 + error conversion (opaque, total)
+//%attr #[verifier::loop_isolation(false)]
+//%contract
+    requires old(decoder).wf()
+    ensures final(decoder).wf(), final(decoder).buf() == old(decoder).buf(), final(decoder).idx() >= old(decoder).idx()
+//%after "while decoder.peek().is_some()"
+        invariant decoder.wf(), decoder.buf() == old(decoder).buf(), decoder.idx() >= old(decoder).idx(),
+        decreases decoder.buf().len() - decoder.idx()
+//%end
+pub struct EchConfigListV(pub Vec<u8>);
+//%fn crates/proto/src/rr/rdata/svcb.rs :: impl<'r> BinDecodable<'r> for EchConfigList :: read
+//%rename ech_config_list_read<'r>
+//%sub1 "Result<Self, DecodeError>" => "Result<EchConfigListV, DecodeError>" # R-sel
+//%sub1 "Ok(Self(data))" => "Ok(EchConfigListV(data))" # R-sel
+//%contract
+    requires old(decoder).wf()
+    ensures final(decoder).wf(), final(decoder).buf() == old(decoder).buf(), final(decoder).idx() >= old(decoder).idx()
+//%end
+pub struct UnknownV(pub Vec<u8>);
+//%fn crates/proto/src/rr/rdata/svcb.rs :: impl<'r> BinDecodable<'r> for Unknown :: read
+//%rename unknown_read<'r>
+//%sub1 "Result<Self, DecodeError>" => "Result<UnknownV, DecodeError>" # R-sel
+//%sub1 "Ok(Self(unknowns))" => "Ok(UnknownV(unknowns))" # R-sel
+//%sub1 "data.unverified(/*any data is valid here*/).to_vec()" => "data.unverified()" # R-shim: `.to_vec()` on the Vec<u8> just read (a copy)
+//%contract
+    requires old(decoder).wf()
+    ensures final(decoder).wf(), final(decoder).buf() == old(decoder).buf(), final(decoder).idx() >= old(decoder).idx()
+//%end
+// IpHint<T> is instantiated with A and AAAA only (SvcParamValue::read); their `read` contracts are proved in unit
+// rdata_plain: Ok consumes exactly 4 / 16 octets
+pub struct A { pub vp: u32 }
+pub struct AAAA { pub vp: u128 }
+#[verifier::external_body]
+pub fn a_read<'r>(decoder: &mut BinDecoder<'r>) -> (r: Result<A, DecodeError>)
+    requires old(decoder).wf()
+    ensures final(decoder).wf(), final(decoder).buf() == old(decoder).buf(), final(decoder).idx() >= old(decoder).idx(),
+        r is Ok ==> final(decoder).idx() == old(decoder).idx() + 4
+{ unimplemented!() }
+#[verifier::external_body]
+pub fn aaaa_read<'r>(decoder: &mut BinDecoder<'r>) -> (r: Result<AAAA, DecodeError>)
+    requires old(decoder).wf()
+    ensures final(decoder).wf(), final(decoder).buf() == old(decoder).buf(), final(decoder).idx() >= old(decoder).idx(),
+        r is Ok ==> final(decoder).idx() == old(decoder).idx() + 16
+{ unimplemented!() }
+pub struct IpHintV<T>(pub Vec<T>);
+//%fn crates/proto/src/rr/rdata/svcb.rs :: impl<'r, T> BinDecodable<'r> for IpHint<T> where T: BinDecodable<'r>, :: read
+//%rename ip_hint_a_read<'r>
+//%sub1 "Result<Self, DecodeError>" => "Result<IpHintV<A>, DecodeError>" # R-mono: generic IpHint<T> verified at T = A
+//%sub1 "Ok(Self(ips))" => "Ok(IpHintV(ips))" # R-sel
+//%sub1 "T::read(decoder)?" => "a_read(decoder)?" # R-mono
+//%sub1 "let mut ips = Vec::new();" => "let mut ips: Vec<A> = Vec::new();" # R-ann
+//%attr #[verifier::loop_isolation(false)]
+//%contract
+    requires old(decoder).wf()
+    ensures final(decoder).wf(), final(decoder).buf() == old(decoder).buf(), final(decoder).idx() >= old(decoder).idx()
+//%after "while decoder.peek().is_some()"
+        invariant decoder.wf(), decoder.buf() == old(decoder).buf(), decoder.idx() >= old(decoder).idx(),
+        decreases decoder.buf().len() - decoder.idx()
+//%end
+//%fn crates/proto/src/rr/rdata/svcb.rs :: impl<'r, T> BinDecodable<'r> for IpHint<T> where T: BinDecodable<'r>, :: read
+//%rename ip_hint_aaaa_read<'r>
+//%sub1 "Result<Self, DecodeError>" => "Result<IpHintV<AAAA>, DecodeError>" # R-mono: generic IpHint<T> verified at T = AAAA
+//%sub1 "Ok(Self(ips))" => "Ok(IpHintV(ips))" # R-sel
+//%sub1 "T::read(decoder)?" => "aaaa_read(decoder)?" # R-mono
+//%sub1 "let mut ips = Vec::new();" => "let mut ips: Vec<AAAA> = Vec::new();" # R-ann
+//%attr #[verifier::loop_isolation(false)]
+//%contract
+    requires old(decoder).wf()
+    ensures final(decoder).wf(), final(decoder).buf() == old(decoder).buf(), final(decoder).idx() >= old(decoder).idx()
+//%after "while decoder.peek().is_some()"
+        invariant decoder.wf(), decoder.buf() == old(decoder).buf(), decoder.idx() >= old(decoder).idx(),
+        decreases decoder.buf().len() - decoder.idx()
+//%end
+
+// ---- the EDNS option value decoders (opt.rs): EdnsOption::try_from((code, bytes)) and what it dispatches to.
+//      Each works on the option's own bytes (a fresh decoder / the slice), so only totality matters ----
+pub struct IpAddr { pub vp: u128 }
+pub fn vp_v4_unspecified_octets() -> (r: [u8; 4]) { [0u8; 4] }
+pub fn vp_v6_unspecified_octets() -> (r: [u8; 16]) { [0u8; 16] }
+pub trait VpIpFrom<T> { fn vp_from(o: T) -> IpAddr; }
+impl VpIpFrom<[u8; 4]> for IpAddr { #[verifier::external_body] fn vp_from(o: [u8; 4]) -> IpAddr { unimplemented!() } }
+impl VpIpFrom<[u8; 16]> for IpAddr { #[verifier::external_body] fn vp_from(o: [u8; 16]) -> IpAddr { unimplemented!() } }
+pub struct ClientSubnet { pub address: IpAddr, pub source_prefix: u8, pub scope_prefix: u8 }
+//%fn crates/proto/src/rr/rdata/opt.rs :: impl<'a> BinDecodable<'a> for ClientSubnet :: read
+//%rename client_subnet_read<'a>
+//%sub1 "Result<Self, DecodeError>" => "Result<ClientSubnet, DecodeError>" # R-sel: trait-impl method pulled out as a free fn
+//%sub "Ok(Self {" => "Ok(ClientSubnet {" # R-sel
+//%sub1 "Ipv4Addr::UNSPECIFIED.octets()" => "vp_v4_unspecified_octets()" # R-shim: [0; 4]
+//%sub1 "Ipv6Addr::UNSPECIFIED.octets()" => "vp_v6_unspecified_octets()" # R-shim: [0; 16]
+//%sub "IpAddr::from(octets)" => "<IpAddr as VpIpFrom<_>>::vp_from(octets)" # R-shim: From<[u8; N]> for IpAddr (total)
+//%sub "for octet in octets.iter_mut().take(addr_len) { *octet = decoder.read_u8()?.unverified(); }" => "let mut vp_k: usize = 0; while vp_k < addr_len invariant vp_k <= addr_len <= octets@.len(), decoder.wf(), decoder.buf() == old(decoder).buf(), decoder.idx() >= old(decoder).idx() decreases addr_len - vp_k { octets[vp_k] = decoder.read_u8()?.unverified(); vp_k += 1; }" # R-iter: `for x in a.iter_mut().take(n) { *x = E; }` written as the indexed loop it denotes (n <= a.len() is checked just above in the source); the loop body expression E is kept verbatim
+//%attr #[verifier::loop_isolation(false)]
+//%contract
+    requires old(decoder).wf()
+    ensures final(decoder).wf(), final(decoder).buf() == old(decoder).buf(), final(decoder).idx() >= old(decoder).idx()
+//%end
+//%fn crates/proto/src/rr/rdata/opt.rs :: impl<'a> TryFrom<&'a [u8]> for ClientSubnet :: try_from
+//%rename client_subnet_try_from<'a>
+//%sub1 "Result<Self, Self::Error>" => "Result<ClientSubnet, DecodeError>" # R-sel
+//%sub1 "Self::read(&mut decoder)" => "client_subnet_read(&mut decoder)" # R-sel
+//%end
+pub struct NSIDPayload(pub Vec<u8>);
+//%fn crates/proto/src/rr/rdata/opt.rs :: impl<'a> TryFrom<&'a [u8]> for NSIDPayload :: try_from
+//%rename nsid_payload_try_from<'a>
+//%sub1 "Result<Self, Self::Error>" => "Result<NSIDPayload, DecodeError>" # R-sel
+//%sub1 "Ok(Self(value.to_vec()))" => "Ok(NSIDPayload(vp_slice_to_owned(value)))" # R-sel + R-shim: <[u8]>::to_vec
+//%end
+
+// the dispatcher EdnsOption::try_from with the REAL code / option enums (kept in a module: the OPT::read_data section
+// above uses collapsed stand-ins with the same names) and the DAU/DHU/N3U value (SupportedAlgorithms)
+pub mod edns_real {
+use super::*;
+#[derive(Clone, Copy)]
+//%enum crates/proto/src/dnssec/algorithm.rs :: Algorithm
+//%end
+impl Algorithm {
+//%fn crates/proto/src/dnssec/algorithm.rs :: impl Algorithm :: from_u8
+//%end
+}
+#[derive(Clone, Copy)]
+//%struct crates/proto/src/dnssec/supported_algorithm.rs :: SupportedAlgorithms
+//%end
+impl SupportedAlgorithms {
+//%fn crates/proto/src/dnssec/supported_algorithm.rs :: impl SupportedAlgorithms :: new
+//%end
+//%fn crates/proto/src/dnssec/supported_algorithm.rs :: impl SupportedAlgorithms :: pos
+//%closure "|b|"
+|b: u8| -> (o: u8) requires b < 8
+//%mutant shift_out_of_range "Algorithm::ED25519 => Some(6)," => "Algorithm::ED25519 => Some(8),"
+//%end
+//%fn crates/proto/src/dnssec/supported_algorithm.rs :: impl SupportedAlgorithms :: set
+//%end
+}
+//%fn crates/proto/src/dnssec/supported_algorithm.rs :: impl<'a> From<&'a [u8]> for SupportedAlgorithms :: from
+//%rename supported_algorithms_from<'a>
+//%sub1 "-> Self" => "-> SupportedAlgorithms" # R-sel: trait-impl method pulled out as a free fn
+//%sub1 "Self::new()" => "SupportedAlgorithms::new()" # R-sel
+//%sub1 "warn!(\"unrecognized algorithm: {}\", v)" => "()" # R-log: logging macro in expression position (a match arm) -> unit
+//%closure "|i|"
+|i: &u8| -> (o: Algorithm)
+//%after "for a in"
+        vp_it:
+//%end
+#[derive(Clone, Copy)]
+//%enum crates/proto/src/rr/rdata/opt.rs :: EdnsCode
+//%end
+// opt.rs `impl From<EdnsCode> for u16`: exhaustive match (ASSUMED total)
+#[verifier::external_body] pub fn vp_code_to_u16(c: EdnsCode) -> u16 { unimplemented!() }
+//%enum crates/proto/src/rr/rdata/opt.rs :: EdnsOption
+//%end
+//%fn crates/proto/src/rr/rdata/opt.rs :: impl<'a> TryFrom<(EdnsCode, &'a [u8])> for EdnsOption :: try_from
+//%rename edns_option_try_from<'a>
+//%sub1 "Result<Self, Self::Error>" => "Result<EdnsOption, DecodeError>" # R-sel
+//%sub "Self::" => "EdnsOption::" # R-sel
+//%sub1 "value.1.into()" => "supported_algorithms_from(value.1)" # R-shim: Into::into -> From<&[u8]> for SupportedAlgorithms
+//%sub "value.1.try_into()?"@1 => "client_subnet_try_from(value.1)?" # R-shim: TryInto::try_into -> TryFrom<&[u8]> for ClientSubnet
+//%sub "value.1.try_into()?"@2 => "nsid_payload_try_from(value.1)?" # R-shim: TryInto::try_into -> TryFrom<&[u8]> for NSIDPayload
+//%sub1 "value.0.into()" => "vp_code_to_u16(value.0)" # R-shim: Into::into -> From<EdnsCode> for u16
+//%sub1 "value.1.to_vec()" => "vp_slice_to_owned(value.1)" # R-shim: <[u8]>::to_vec
+//%contract
+    // C01: every (code, bytes) pair decodes to an option or an error
+    ensures true
+//%end
+}
+
 } // verus!
 fn main() {}
